@@ -26,6 +26,9 @@ type CloneCase struct {
 	// DupID (with FromWire): the wire image repeats an extension id with another value (nothing forbids it on the
 	// wire; SetExtension cannot produce it): both elements must be cloned as they are
 	DupID bool `json:"dup_id,omitempty"`
+	// XCleared: before cloning, the exported Extension flag is cleared while the entries stay in place (a caller
+	// suppresses the block for one send); the clone must carry the same entries
+	XCleared bool `json:"x_cleared,omitempty"`
 	// Both: after cloning, the mutation is applied to BOTH sides (with different values):
 	// each side must then show its own change only
 	Both bool `json:"both"`
@@ -42,6 +45,20 @@ func fullObs(p *rtp.Packet) string {
 	}
 	b, err := p.Marshal()
 	s += fmt.Sprintf(" marshal=%s err=%v", hb(b), err)
+	s += entriesObs(&p.Header)
+
+	return s
+}
+
+// entriesObs lists the extension entries a header holds whatever its Extension flag says (read through a copy of
+// the header value with the flag set; nothing is modified).
+func entriesObs(h *rtp.Header) string {
+	v := *h
+	v.Extension = true
+	s := fmt.Sprintf(" entries=%d:", len(h.Extensions))
+	for _, id := range v.GetExtensionIDs() {
+		s += fmt.Sprintf(" %d=%s", id, hb(v.GetExtension(id)))
+	}
 
 	return s
 }
@@ -55,6 +72,7 @@ func hdrObs(h *rtp.Header) string {
 	}
 	b, err := h.Marshal()
 	s += fmt.Sprintf(" marshal=%s err=%v", hb(b), err)
+	s += entriesObs(h)
 
 	return s
 }
@@ -246,6 +264,10 @@ func checkC20(r *run, c *CloneCase) (CaseInfo, error) {
 		ci.class("extensions-emptied-by-del")
 	}
 	orig.PayloadOffset = c.PayloadOffset
+	if c.XCleared && orig.Extension && len(orig.Extensions) > 0 {
+		orig.Extension = false
+		ci.class("entries-kept-with-x-cleared")
+	}
 	before := fullObs(orig)
 	cl := orig.Clone()
 	if cl == nil {
@@ -397,6 +419,7 @@ func genCloneCase(t *rapid.T) *CloneCase {
 	}
 	c.FromWire = genBool(t, "fromwire")
 	c.DupID = c.FromWire && rapid.IntRange(0, 3).Draw(t, "dupid") == 0
+	c.XCleared = rapid.IntRange(0, 7).Draw(t, "xcleared") == 0
 	if genBool(t, "haspayloadoffset") {
 		c.PayloadOffset = rapid.SampledFrom([]int{12, 20, 1, -1, 65536}).Draw(t, "payloadoffset")
 	}
@@ -426,7 +449,7 @@ func genCloneCase(t *rapid.T) *CloneCase {
 	return c
 }
 
-const ruleC20 = "C01's well-formed packets (built through the API, or obtained from Unmarshal so that all slices alias one wire buffer (a quarter of those from an image that repeats an extension id); nil and empty payload/CSRC; the deprecated PayloadOffset header field set or not) x one mutation {flip payload byte, change CSRC entry, flip a byte of an extension value through the slice GetExtension returns, SetExtension new/replace, DelExtension, scalar field, padding size} applied to the original or to the clone, or a different new extension set on BOTH sides; optionally the extension list is first emptied again with DelExtension (length 0, spare capacity); oracle: clone observably equal (all fields, ids, values, Marshal bytes), untouched side unchanged after the mutation, as are a second clone of the original and a clone of the clone taken before it, and a clone of the untouched side taken after it; same for Header.Clone. Non-trivial = the mutation was applicable; distinct = FNV-64 of the JSON case"
+const ruleC20 = "C01's well-formed packets (built through the API, or obtained from Unmarshal so that all slices alias one wire buffer (a quarter of those from an image that repeats an extension id); nil and empty payload/CSRC; the deprecated PayloadOffset header field set or not; one case in eight with the Extension flag cleared while the entries stay) x one mutation {flip payload byte, change CSRC entry, flip a byte of an extension value through the slice GetExtension returns, SetExtension new/replace, DelExtension, scalar field, padding size} applied to the original or to the clone, or a different new extension set on BOTH sides; optionally the extension list is first emptied again with DelExtension (length 0, spare capacity); oracle: clone observably equal (all fields, ids, values, Marshal bytes), untouched side unchanged after the mutation, as are a second clone of the original and a clone of the clone taken before it, and a clone of the untouched side taken after it; same for Header.Clone. Non-trivial = the mutation was applicable; distinct = FNV-64 of the JSON case"
 
 func TestC20(t *testing.T) {
 	r := begin(t, "C20", "exploration", ruleC20)
